@@ -456,6 +456,24 @@ def _parse_multiplicity(strings, substance_keys=None):
     return result
 
 
+def _is_inactive_group(term):
+    """True if ``term`` is enclosed by one matching pair of parentheses, e.g. '(2 H2O)'.
+
+    Keys which merely begin with a parenthesis, e.g. '(NH4)2SO4' or '(CH3)3N(aq)', are not.
+    """
+    if not (term.startswith("(") and term.endswith(")")):
+        return False
+    depth = 0
+    for idx, char in enumerate(term):
+        if char == "(":
+            depth += 1
+        elif char == ")":
+            depth -= 1
+            if depth == 0:
+                return idx == len(term) - 1
+    return False
+
+
 def to_reaction(line, substance_keys, token, Cls, globals_=None, **kwargs):
     """Parses a string into a Reaction object and substances
 
@@ -512,12 +530,12 @@ def to_reaction(line, substance_keys, token, Cls, globals_=None, **kwargs):
     for elements in reac_prod:
         act.append(
             _parse_multiplicity(
-                [x for x in elements if not x.startswith("(")], substance_keys
+                [x for x in elements if not _is_inactive_group(x)], substance_keys
             )
         )
         inact.append(
             _parse_multiplicity(
-                [x[1:-1] for x in elements if x.startswith("(") and x.endswith(")")],
+                [x[1:-1] for x in elements if _is_inactive_group(x)],
                 substance_keys,
             )
         )
